@@ -375,6 +375,27 @@ def gen_case(rng, slot, nops, stats):
 UNI_NAMES = ["Profit", "Pro\ufb01t", "Benefit", "Bene\ufb01t", "\uff30rofit", "\u00e9t\u00e9", "e\u0301te\u0301", "K", "\u212a"]
 
 
+def gen_noderef_case(rng, slot):
+    """(P)-only directed case (seeded/C19_r5): a model holding a reference to a NODE of one of its own cells is written
+    and read back under ANOTHER name while the original is open: the copy must hold a node of ITS OWN cells (no edit of
+    the history creates a reference between two models, so any such holding is a violation), and editing the original
+    afterwards must not change the copy"""
+    cm = slot * GAP + rng.randint(1, 4)
+    cb = slot * GAP + rng.randint(1, 4)
+    z = rng.random() < 0.5
+    ops = [{"k": "new", "name": "A", "expect": 0},
+           {"k": "edit", "h": 0, "e": {"t": "space", "n": "Sa"}, "expect": 0},
+           {"k": "edit", "h": 0, "e": {"t": "cells", "s": "Sa", "n": "foo", "f": rng.choice([0, 1])}, "expect": 0},
+           {"k": "edit", "h": 0, "e": {"t": "eval", "s": "Sa", "n": "foo", "k": 1}, "expect": 0},
+           {"k": "edit", "h": 0, "e": {"t": "noderef", "s": "Sa", "n": "nd", "c": "foo", "k": rng.randint(0, 3)}, "expect": 0},
+           {"k": "write", "h": 0, "slot": 0, "zip": z, "expect": 0},
+           {"k": "read", "slot": 0, "name": rng.choice(["B", "B", None]), "expect": 0},
+           {"k": "edit", "h": 0, "e": {"t": "setf", "s": "Sa", "n": "foo", "f": 1}, "expect": 0},
+           {"k": "write", "h": 1, "slot": 1, "zip": not z, "expect": 0},
+           {"k": "read", "slot": 1, "name": "C", "expect": 0}]
+    return {"cm": cm, "cb": cb, "ops": ops, "tag": "n"}
+
+
 def gen_unicode_case(rng, slot):
     """(P)-only class (seeded/C19_r4): model names that are valid identifiers but not in NFKC form (ligature, full-width
     letter, combining accent, KELVIN SIGN) next to their plain spellings: new / rename (with and without rename_old) /
@@ -489,6 +510,7 @@ def script_for(case, upto=None):
                 to = e["to"]
                 tg = "H[%d]" % e["j"] + ("" if to == "model" else "." + to.split(":", 1)[1])
                 c = "setattr(%s, %r, %s)" % (sp(), e["n"], tg)
+            elif tt == "noderef": c = "setattr(%s, %r, %s.%s.node(%d))" % (sp(), e["n"], sp(), e["c"], e["k"])
             elif tt == "delcells": c = "delattr(%s, %r)" % (sp(), e["n"])
             elif tt == "delspace": c = "delattr(%s, %r)" % (obj, e["n"])
             elif tt == "renspace": c = "%s.%s.rename(%r)" % (obj, e["n"], e["to"])
@@ -584,6 +606,9 @@ def oracle(case, res):
         for j in range(min(len(N0), len(N1))):
             if N0[j] != N1[j] and j != victim and not (j == acting and k == "rename" and ok):
                 fails.append((i, "%s changed the name of uninvolved handle %d: %r -> %r" % (k, j, N0[j], N1[j])))
+        # no reference between two models that no edit created (directed node-reference cases)
+        for holder, ref, owner in ob.get("foreign", []):
+            fails.append((i, "after %s, model handle %d holds in reference %r an object of model handle %d" % (k, holder, ref, owner)))
         # current model is registered
         if ob["cur"] is not None and ob["cur"] not in ids1:
             fails.append((i, "current model (handle %r) is not registered" % (ob["cur"],)))
@@ -676,6 +701,8 @@ def run(tier, seed, rng):
     nuni = 60 if tier == "quick" else 600
     for _ in range(nuni):
         cases.append(gen_unicode_case(rng, len(cases) % CHUNK))
+    for _ in range(6 if tier == "quick" else 40):
+        cases.append(gen_noderef_case(rng, len(cases) % CHUNK))
     res = run_cases(cases)
     terms, idx = [], []
     PROBE = ("import modelx as mx\nm = mx.new_model(); assert m.name.startswith('Model'), m.name; m.close()\n"
@@ -699,7 +726,7 @@ def run(tier, seed, rng):
         if len(r["obs"]) < len(c["ops"]):      # generator's mirror lost track of the handles: keep the executed prefix
             c = cases[j] = dict(c, ops=c["ops"][:len(r["obs"])])
             stats["truncated_cases"] = stats.get("truncated_cases", 0) + 1
-        if c.get("tag") != "u":
+        if c.get("tag") not in ("u", "n"):
             terms.append(emit_case(c, r)); idx.append(j)
         for (i, text) in oracle(c, r)[:2]:
             out.p_failures.append({"case": {"cm": c["cm"], "cb": c["cb"], "ops": c["ops"][:i + 1]},
